@@ -4,7 +4,7 @@
 . "$(dirname "$0")/env.sh"
 unset CGO_ENABLED
 out=$(mktemp)
-(cd /repo && go test -mod=mod -json -vet=off -count=1 -timeout 25m ./... 2>/dev/null) > "$out"
+(cd "${VERIF_ALT_REPO:-/repo}" && go test -mod=mod -json -vet=off -count=1 -timeout 25m ./... 2>/dev/null) > "$out"
 python3 - "$out" <<'PY'
 import json,sys
 base=json.load(open('/root/.vp/BASELINE.json'))
